@@ -1,4 +1,7 @@
 mod asm;
+mod dev;
+mod frames;
+mod tcp;
 mod pbuf;
 mod ring;
 mod util;
@@ -15,6 +18,9 @@ fn main() {
         "asm-replay" => asm::replay(&args),
         "asm-random" => asm::random(&args),
         "ring-replay" => ring::replay(&args),
+        "tcp-pair" => tcp::pair(&args),
+        "tcp-peer-replay" => tcp::peer_replay(&args),
+        "tcp-peer-random" => tcp::peer_random(&args),
         "pbuf-replay" => pbuf::replay(&args),
         "pbuf-random" => pbuf::random(&args),
         "ring-random" => ring::random(&args),
